@@ -28,6 +28,10 @@ type SchedPlan struct {
 	SiteMask  uint64  `json:"site_mask"`
 	HotMod    int     `json:"hot_mod,omitempty"` // sites with id % HotMod == HotRem always pre-empt
 	HotRem    int     `json:"hot_rem,omitempty"`
+	// spawn lag: the parent of a selected `go` statement stays behind the goroutine it started
+	SpawnLag  int `json:"spawn_lag,omitempty"`
+	SpawnMod  int `json:"spawn_mod,omitempty"`
+	SpawnSalt int `json:"spawn_salt,omitempty"`
 }
 
 // NetPlan are the network knobs and planned faults.
@@ -104,6 +108,9 @@ func (e *Env) simConfig(seed uint64) simrt.Config {
 		SiteMask:  e.Sched.SiteMask,
 		HotMod:    e.Sched.HotMod,
 		HotRem:    e.Sched.HotRem,
+		SpawnLag:  e.Sched.SpawnLag,
+		SpawnMod:  e.Sched.SpawnMod,
+		SpawnSalt: e.Sched.SpawnSalt,
 	}
 }
 
@@ -175,6 +182,12 @@ func genEnv(g *simrt.Rng, tier string) Env {
 	// pools
 	e.Pool.Policy = g.IntN(simpool.NumPolicies)
 	e.Pool.Poison = g.Bool(0.5)
+	if g.Bool(0.15) {
+		// the child overtakes its parent: whoever starts a goroutine stays behind it for a while
+		e.Sched.SpawnLag = simrt.Pick(g, 3, 5, 7)
+		e.Sched.SpawnMod = simrt.Pick(g, 1, 2, 3)
+		e.Sched.SpawnSalt = g.IntN(1 << 16)
+	}
 	return e
 }
 
